@@ -214,6 +214,7 @@ type sessWriter struct {
 	body   []byte
 	writes int
 	failAt int
+	failed bool
 }
 
 var errSessWrite = errors.New("scripted ResponseWriter failure")
@@ -224,6 +225,7 @@ func (w *sessWriter) FlushError() error   { return nil }
 func (w *sessWriter) Write(p []byte) (int, error) {
 	w.writes++
 	if w.writes == w.failAt {
+		w.failed = true
 		w.body = append(w.body, p[:len(p)/2]...)
 		return len(p) / 2, errSessWrite
 	}
@@ -232,6 +234,7 @@ func (w *sessWriter) Write(p []byte) (int, error) {
 }
 
 type sessWorld struct {
+	Failed bool // the first writer's failAt-th Write happened (how many Writes a message takes is the library's business)
 	Bodies [2]string
 	Errs   [2]error
 	Ret    [2]bool
@@ -281,6 +284,7 @@ func sessionBody(failAt int) func() {
 		for i, wr := range writers {
 			w.Bodies[i] = string(wr.body)
 		}
+		w.Failed = writers[0].failed
 	}
 }
 
@@ -298,8 +302,11 @@ func sessionCheck(failAt int) func(r *vrt.Result) string {
 		if !w.Ret[0] || !w.Ret[1] {
 			return "a Subscribe did not return"
 		}
-		if w.Errs[0] != errSessWrite {
+		if w.Failed && w.Errs[0] != errSessWrite {
 			return fmt.Sprintf("the Session whose ResponseWriter failed at Write #%d: Subscribe returned %v, want the writer's error", failAt, w.Errs[0])
+		}
+		if !w.Failed && (w.Errs[0] != nil || w.Bodies[0] != w.Want) {
+			return fmt.Sprintf("the first Session's writer never failed (fewer than %d Writes were made), yet its Subscribe returned %v and it received %q, want %q", failAt, w.Errs[0], w.Bodies[0], w.Want)
 		}
 		if w.Errs[1] != nil {
 			return fmt.Sprintf("the healthy Session's Subscribe returned %v", w.Errs[1])
